@@ -554,7 +554,7 @@ func runFetch(c Case, res *lib.Result) string {
 				res.Fail("repush-no-put", "no manifest PUT reached the target", c)
 			}
 			b.Lock()
-			_, ok := b.Repos["copy/app"].Manifests[sha("sha256", raw)]
+			_, ok := b.Repos["copy/app"].Manifests[memreg.ManifestDigest("sha256", raw)] // a signed schema1 manifest is stored under the digest of its payload
 			b.Unlock()
 			if !ok && o.alg == 0 {
 				res.Fail("repush-digest-changed", "the target does not hold the manifest under its original digest", c)
